@@ -3,9 +3,9 @@
  *   trunc <case as in wr> | n=<file length> file=x.. acc=<k.mode.nrg.rows,...>
  *        every proper prefix (k = 0..n-1 bytes) is offered to the three open paths
  *        (mode 0 fread, 1 mmap, 2 buffer); acc lists the accepted ones.
- *   sink <case> kind=<0 byte budget | 1 op budget | 2 flush fails | 3 close fails> k=<budget>
- *        | st=<statuses> sunk=<bytes the sink accepted> failed=<0/1 sink reported a failure>
- *          p_fail_surfaces=0/1 p_ok_implies_bytes=0/1
+ *   sink <case> kind=<0 byte budget | 1 op budget | 3 /dev/full | 4 one transient failure> k=<budget> buf=<0 unbuffered | 1 64-byte buffer | 2 default>
+ *        | st=<statuses> sunk=<bytes the sink accepted> sunkh=<FNV-1a 64 of them> ev=<call.offered.taken of every sink operation>
+ *          failed=<0/1 sink reported a failure> p_fail_surfaces=0/1 p_ok_implies_bytes=0/1 p_close_ok_implies_bytes=0/1
  *        the writer runs on a fopencookie stream (create_file) or, for kind 3, on a path-based
  *        writer over a stream whose close fails is not constructible, so kind 3 uses /dev/full.
  *   abort <case> at=<step index> | removed=0/1 p_no_file=0/1
@@ -65,15 +65,29 @@ static void run_trunc(hctx* h, fcase* fc) {
 }
 
 /* ---------- failing sink ---------- */
-typedef struct { long byte_budget, op_budget; int transient; long sunk; int failed; uint8_t* data; size_t cap; } sink_t;
+#define SINK_MAXEV 4096
+typedef struct { long byte_budget, op_budget; int transient; long sunk; int failed; uint8_t* data; size_t cap;
+                 int call;                       /* index of the writer API call in progress (close = nsteps, the harness's own flush/close = nsteps + 1) */
+                 int nev; int ev_call[SINK_MAXEV]; long ev_n[SINK_MAXEV], ev_r[SINK_MAXEV]; } sink_t;
+static ssize_t sink_write_(void* c, const char* b, size_t n);
+/* every operation the stream asks of the sink is logged: (API call, bytes offered, bytes taken) -- the oracle stdio and the
+ * sink actually played, compared by the driver with the environment it runs the writer model in */
 static ssize_t sink_write(void* c, const char* b, size_t n) {
+    sink_t* s = (sink_t*)c;
+    ssize_t r = sink_write_(c, b, n);
+    if (s->nev < SINK_MAXEV) { s->ev_call[s->nev] = s->call; s->ev_n[s->nev] = (long)n; s->ev_r[s->nev] = (long)r; }
+    s->nev++;
+    return r;
+}
+static ssize_t sink_write_(void* c, const char* b, size_t n) {
     sink_t* s = (sink_t*)c;
     if (s->op_budget == 0) { s->failed = 1; errno = EIO; if (s->transient) s->op_budget = -1; return 0; }   /* transient: only this one operation fails */
     if (s->op_budget > 0) s->op_budget--;
     size_t take = n;
     if (s->byte_budget >= 0 && (long)take > s->byte_budget) take = (size_t)s->byte_budget;
     if (s->sunk + (long)take > (long)s->cap) { s->cap = (size_t)(s->sunk + (long)take) * 2 + 64; s->data = (uint8_t*)realloc(s->data, s->cap); }
-    memcpy(s->data + s->sunk, b, take); s->sunk += (long)take;
+    if (take) memcpy(s->data + s->sunk, b, take);
+    s->sunk += (long)take;
     if (s->byte_budget >= 0) s->byte_budget -= (long)take;
     if (take < n) { s->failed = 1; errno = ENOSPC; return (ssize_t)take; }   /* short write = error for stdio */
     return (ssize_t)n;
@@ -94,15 +108,16 @@ static void run_sink(hctx* h, fcase* fc, int kind, long k, const uint8_t* good, 
         (void)!carquet_schema_add_column(sc, fc->cols[i].name, (carquet_physical_type_t)fc->cols[i].ptype, NULL, (carquet_field_repetition_t)fc->cols[i].rep, fc->cols[i].tlen);
     carquet_writer_options_t wo; carquet_writer_options_init(&wo);
     wo.compression = (carquet_compression_t)fc->codec; wo.page_size = fc->page;
-    sink_t s; memset(&s, 0, sizeof s); s.byte_budget = kind == 0 ? k : -1; s.op_budget = (kind == 1 || kind == 4) ? k : -1; s.transient = kind == 4;
+    static sink_t s; memset(&s, 0, sizeof s); s.byte_budget = kind == 0 ? k : -1; s.op_budget = (kind == 1 || kind == 4) ? k : -1; s.transient = kind == 4;
     FILE* fp = NULL; carquet_writer_t* w = NULL;
     if (kind == 3) { w = carquet_writer_create("/dev/full", sc, &wo, &err); }
     else {
         cookie_io_functions_t io = { NULL, sink_write, NULL, sink_close };
         fp = fopencookie(&s, "wb", io);
         if (bufmode == 0) setvbuf(fp, NULL, _IONBF, 0);           /* unbuffered: failures surface at the fwrite */
-        else if (bufmode == 1) setvbuf(fp, NULL, _IOFBF, 64);      /* small buffer */
-        /* bufmode 2: default (large) buffer: failures are absorbed until flush */
+        else if (bufmode == 1) { static char small_buf[64]; setvbuf(fp, small_buf, _IOFBF, sizeof small_buf); }   /* small buffer: flushes and direct
+                                                                       * writes in the middle of an fwrite (glibc ignores the size when no buffer is given) */
+        /* bufmode 2: default (large, 8 KiB) buffer: failures are absorbed until flush */
         w = carquet_writer_create_file(fp, sc, &wo, &err);
     }
     int any_bad = 0; int first = 1; int last_close = -1;
@@ -111,6 +126,7 @@ static void run_sink(hctx* h, fcase* fc, int kind, long k, const uint8_t* good, 
     else {
         for (int i = 0; i < fc->nsteps; i++) {
             const fstep* t = &fc->steps[i]; int r;
+            s.call = i;
             if (t->kind == 1) r = (int)carquet_writer_new_row_group(w);
             else {
                 void* v = batch_values(&fc->cols[t->col], t);
@@ -121,19 +137,27 @@ static void run_sink(hctx* h, fcase* fc, int kind, long k, const uint8_t* good, 
             }
             fprintf(h->out, "%s%d", first ? "" : ",", r); first = 0; if (r != 0) any_bad = 1;
         }
+        s.call = fc->nsteps;
         int r = (int)carquet_writer_close(w); last_close = r;
         fprintf(h->out, "%s%d", first ? "" : ",", r); if (r != 0) any_bad = 1;
     }
     int failed = s.failed;
     if (kind == 3) failed = 1;                      /* /dev/full: every flush fails with ENOSPC */
+    s.call = fc->nsteps + 1;
     if (fp) { if (fflush(fp) != 0) { /* the harness's own flush: bytes still buffered never reached the sink */ } fclose(fp); }
     int ok_bytes = 1;
     if (!any_bad && kind != 3) ok_bytes = ((size_t)s.sunk == ngood && memcmp(s.data, good, ngood) == 0);
     /* the caller carried on after a failed call: OK from close must still mean the sink holds the whole file */
     int close_ok_bytes = 1;
     if (w && kind != 3 && last_close == 0) close_ok_bytes = ((size_t)s.sunk == ngood && memcmp(s.data, good, ngood) == 0);
-    if (g_sink_c05) fprintf(h->out, " sunk=%ld failed=%d close=%d p_close_ok_implies_file=%d\n", s.sunk, failed, last_close, close_ok_bytes);
-    else fprintf(h->out, " sunk=%ld failed=%d p_fail_surfaces=%d p_ok_implies_bytes=%d p_close_ok_implies_bytes=%d\n", s.sunk, failed, (!failed) || any_bad, ok_bytes, close_ok_bytes);
+    /* what the sink holds (FNV-1a 64 of its bytes) and the operations it was asked to do */
+    { uint64_t hh = 0xcbf29ce484222325ULL; for (long q = 0; q < s.sunk; q++) { hh ^= s.data[q]; hh *= 0x100000001b3ULL; }
+      fprintf(h->out, " sunk=%ld sunkh=%llu ev=", s.sunk, (unsigned long long)hh);
+      if (s.nev == 0 || s.nev > SINK_MAXEV) fprintf(h->out, s.nev == 0 ? "-" : "overflow");
+      else for (int q = 0; q < s.nev; q++) fprintf(h->out, "%s%d.%ld.%ld", q ? "," : "", s.ev_call[q], s.ev_n[q], s.ev_r[q]);
+      if (getenv("VERIF_SINK_DUMP")) { fprintf(h->out, " sunkx="); h_hex(h->out, s.data, (size_t)s.sunk); } }   /* development aid: the bytes themselves */
+    if (g_sink_c05) fprintf(h->out, " failed=%d close=%d p_close_ok_implies_file=%d\n", failed, last_close, close_ok_bytes);
+    else fprintf(h->out, " failed=%d p_fail_surfaces=%d p_ok_implies_bytes=%d p_close_ok_implies_bytes=%d\n", failed, (!failed) || any_bad, ok_bytes, close_ok_bytes);
     h->n_lines++;
     carquet_schema_free(sc); free(s.data);
 }
@@ -252,6 +276,29 @@ static void plant_fake_footer(hctx* h, fcase* fc) {
     }
 }
 
+/* A history whose row groups are larger than the default stdio buffer (8 KiB): one REQUIRED BYTE_ARRAY column, uncompressed, row
+ * groups of about `target[g]` bytes: fwrite then flushes the full buffer, writes whole blocks directly and keeps the rest. */
+static void gen_big_case(hctx* h, fcase* fc, const long* target, int ng_) {
+    memset(fc, 0, sizeof *fc);
+    fc->ncols = 1; snprintf(fc->cols[0].name, sizeof fc->cols[0].name, "c0"); fc->cols[0].rep = 0; fc->cols[0].ptype = 6; fc->cols[0].tlen = 0;
+    fc->codec = 0; fc->page = 1024 * 1024;
+    int ns = 0;
+    for (int g = 0; g < ng_; g++) {
+        long left = target[g];
+        int nv = (int)(left / 3000) + 1;
+        fstep* s = &fc->steps[ns++];
+        s->kind = 0; s->col = 0; s->nrows = nv; s->has_defs = 0; s->defs = h_alloc((size_t)nv); memset(s->defs, 1, (size_t)nv);
+        s->nvals = nv; s->vals = (uint8_t**)h_alloc((size_t)nv * sizeof(uint8_t*)); s->vlen = (int*)h_alloc((size_t)nv * sizeof(int));
+        for (int j = 0; j < nv; j++) {
+            int n = (j == nv - 1) ? (int)left : 3000; if (n < 0) n = 0; left -= n;
+            s->vals[j] = h_alloc((size_t)n); s->vlen[j] = n;
+            uint8_t fill = (uint8_t)h_next(h); for (int q = 0; q < n; q++) s->vals[j][q] = (uint8_t)(fill + q / 7);
+        }
+        if (g + 1 < ng_) { fc->steps[ns].kind = 1; ns++; }
+    }
+    fc->nsteps = ns;
+}
+
 static void gen_c18(hctx* h) {
     long files = h->thorough ? 100 : 8;
     for (long i = 0; i < files; i++) {
@@ -283,6 +330,24 @@ static void gen_c18(hctx* h) {
             for (long k = 0; k < 12; k++) run_sink(h, &fc, 4, k, good, ng, bufmode);   /* one failing operation, caller carries on */
         }
         run_sink(h, &fc, 3, 0, good, ng, 2);
+        if (i == 0 || (h->thorough && i % 2 == 0)) {   /* row groups around and beyond the 8 KiB buffer, faults at the block boundaries and at every operation */
+            long tg[3]; int ntg = 2;
+            if (i % 4 == 0) { tg[0] = 16400 + (long)h_below(h, 3000); tg[1] = 1500 + (long)h_below(h, 1500); }
+            else { tg[0] = 2000 + (long)h_below(h, 3000); tg[1] = 8192 - 60 + (long)h_below(h, 120) - tg[0]; tg[2] = 16384 + (long)h_below(h, 3000); ntg = 3; }
+            fcase big; gen_big_case(h, &big, tg, ntg);
+            size_t nb; uint8_t* gb = good_bytes(&big, &nb);
+            for (int bufmode = 0; bufmode < 3; bufmode++) {
+                long ks[24]; int nk = 0; int full = bufmode == 2 || h->thorough;
+                static const long marks[] = { 0, 3, 4, 5, 8191, 8192, 8193, 16383, 16384, 16385, 24576, 24577 };
+                for (int q = 0; q < 12; q++) if (marks[q] <= (long)nb && (full || q == 5)) ks[nk++] = marks[q];
+                if (full) { ks[nk++] = (long)nb - 9; ks[nk++] = (long)nb - 4; } ks[nk++] = (long)nb - 1; ks[nk++] = (long)nb;
+                for (int q = 0; q < (full ? 3 : 0); q++) ks[nk++] = (long)h_below(h, nb + 1);
+                for (int q = 0; q < nk; q++) if (ks[q] >= 0) run_sink(h, &big, 0, ks[q], gb, nb, bufmode);
+                for (long k = 0; k < (full ? 7 : 2); k++) { run_sink(h, &big, 1, k, gb, nb, bufmode); run_sink(h, &big, 4, k, gb, nb, bufmode); }
+            }
+            run_sink(h, &big, 3, 0, gb, nb, 2);     /* /dev/full with row groups larger than the stream's buffer: the failure surfaces before close */
+            free(gb); free_case(&big);
+        }
         for (int at = 0; at <= fc.nsteps; at++) run_abort(h, &fc, at);
         { static const long lims[] = { 0, 4, 16, 100 };
           for (int li = 0; li < 4; li++) for (int at = 0; at <= fc.nsteps; at += (h->thorough ? 1 : 1 + fc.nsteps / 4)) run_abort_limited(h, &fc, at, lims[li]); }
